@@ -362,6 +362,7 @@ Definition emitted_ok (s : site) (p : str) : Prop :=
            | _ => lit_ok SQ img (lit_expected sa p)
            end
   | CDoc | CDocCooked => doc_ok img
+  | CNumber => sa = SNumber /\ forallb number_char img = true
   | CMarkdown => True
   | CComment | CCode | CUnknown => False
   end.
@@ -421,6 +422,13 @@ Qed.
 Lemma rejects_lit_ok q p : (q = DQ \/ q = SQ) -> forallb pathparam_char p = true -> lit_ok q p p.
 Proof. intros Hq H pre post rest. apply lit_site, plain_lit_value, pathparam_plain; assumption. Qed.
 
+Lemma number_doc_ok p : forallb number_char p = true -> doc_ok p.
+Proof.
+  intros H pre x y post rest. apply doc_site, no_dq_no_triple.
+  apply forallb_forall. intros c Hc. rewrite forallb_forall in H. specialize (H c Hc).
+  apply negb_true_iff, N.eqb_neq. intros ->. discriminate H.
+Qed.
+
 Lemma rejects_doc_ok p : forallb pathparam_char p = true -> doc_ok p.
 Proof.
   intros H pre x y post rest. apply doc_site, no_dq_no_triple.
@@ -451,7 +459,7 @@ Proof.
       first [ now apply whole_site | apply andb_prop in Hg as [Hg _]; now apply guard_lit_ok | now apply ident_lit_ok; [right|] | now apply rejects_lit_ok; [right|] ].
   - (* CDoc *)
     destruct sa; cbn [site_class ident_san] in Hsafe, Hg; try discriminate Hsafe;
-      first [ now apply guard_doc_ok | now apply ident_doc_ok | now apply rejects_doc_ok ].
+      first [ now apply guard_doc_ok | now apply ident_doc_ok | now apply rejects_doc_ok | now apply number_doc_ok ].
   - (* CDocCooked *)
     destruct sa; cbn [site_class ident_san] in Hsafe, Hg; try discriminate Hsafe; now apply ident_doc_ok.
   - (* CFstrDQ *)
@@ -463,6 +471,8 @@ Proof.
     destruct sa; cbn [site_class ident_san] in Hsafe, Hg; try discriminate Hsafe;
       unfold lit_expected; cbn [ident_san];
       first [ apply andb_prop in Hg as [Hg _]; apply andb_prop in Hg as [Hg _]; now apply guard_lit_ok | now apply ident_lit_ok; [left|] ].
+  - (* CNumber *)
+    destruct sa; cbn [site_class ident_san] in Hsafe, Hg; try discriminate Hsafe. now split.
 Qed.
 
 (* the regenerated table: every site of the generator under verification is acceptable *)
@@ -562,6 +572,20 @@ Proof.
   eexists. eexists. split; [vm_compute; reflexivity|]. split; [vm_compute; reflexivity|].
   split; [vm_compute; reflexivity|]. discriminate.
 Qed.
+
+(* uuid_default_whitespace: UUID() tolerates surrounding whitespace (int() strips it), so a newline reaches the hand-quoted literal;
+   a hand-quoted default of the date-time kind is not acceptable at all *)
+Theorem uuid_default_whitespace_refuted :
+  slot_guard (mk CSQ SNone "Schema.default@prop-uuid" "models/*.py") (10 :: s2l "0000000-aaaa-4bbb-8ccc-dddddddddddd") = false /\
+  lex_body SQ ((10 :: s2l "0000000-aaaa-4bbb-8ccc-dddddddddddd") ++ [SQ]) = None /\
+  site_safe (mk CSQ SNone "Schema.default@prop-uuid" "models/*.py") = true /\
+  site_safe (mk CSQ SNone "Schema.default@prop-datetime" "models/*.py") = false /\
+  site_safe (mk CSQ SNone "Schema.default@query-datetime" "api/*/*.py") = false /\
+  site_safe (mk CSQ SNone "Schema.default@prop-date" "models/*.py") = false /\
+  site_safe (mk CSQ SRepr "Schema.default@prop-datetime" "models/*.py") = true /\
+  slot_guard (mk CSQ SRepr "Schema.default@prop-datetime" "models/*.py") (s2l "2020-01-01'10:00:00") = true /\
+  slot_guard (mk CSQ SNone "Schema.default@prop-datetime" "models/*.py") (s2l "2020-01-01'10:00:00") = false.
+Proof. vm_compute. repeat split; reflexivity. Qed.
 
 (* raw_fallback: the raw-name fallback keeps the delimiters space, dash, dot; every other symbol is removed *)
 Theorem raw_fallback_site_refuted :
